@@ -2,10 +2,12 @@
 (* C04 at design level: for all pairs of trees over 4 paths (nesting 0..2)    *)
 (* with content from {absent, empty, c1, c2}, applying the reference creator's*)
 (* patch to A yields exactly B's non-empty files.                            *)
-EXTENDS ZiPatch, TLC
+EXTENDS ZiPatch, TLC, Json
+CONSTANTS Conts, Emit
 MCEmptyHead(n) == <<100 + n>>
+Conts3 == {<<>>, <<1>>, <<2, 3>>}
+Conts2 == {<<>>, <<1>>}
 Paths4 == {<<102>>, <<100,47,103>>, <<100,47,101,47,104>>, <<105>>}     \* f, d/g, d/e/h, i
-Conts == {<<>>, <<1>>, <<2, 3>>}
 TreesOver == UNION {[S -> Conts] : S \in SUBSET Paths4}
 VARIABLE pair
 InitPair == pair \in TreesOver \X TreesOver
@@ -15,4 +17,7 @@ CreateLaw ==
       B == pair[2]
       r == Apply([files |-> A, dirs |-> {}], Create(A, B))
   IN r.res = "ok" /\ r.files = NonEmpty(B)
+\* generator: every pair, files as sequences of [p, c] records
+AsList(f) == LET ps == SetToSeq(DOMAIN f) IN [i \in 1..Len(ps) |-> [p |-> ps[i], c |-> f[ps[i]]]]
+EmitPair == Emit => PrintT("REPLAY|" \o ToJson([a |-> AsList(pair[1]), b |-> AsList(pair[2])]))
 =============================================================================
